@@ -1,0 +1,424 @@
+//go:build verif
+
+// Contracts for package pubsub, checked by /verif (govc). Comment-only.
+package pubsub
+
+// ---------------------------------------------------------------------------------------------
+// C17: topic grammar.  splitTopic is a deterministic function of its argument; its result is named
+// by the two spec functions below (posited, everything else about it is proved from the body).
+//@ uf topicSegN(Str) Int
+//@ uf topicSeg(Str, Int) Str
+//@ uf containsAny(Str, Str) Bool
+
+//@ package strings
+//@ func IndexByte
+//@   modifies nothing
+//@   ensures result == -1 || (0 <= result && result < len(arg0))
+//@   ensures result >= 0 ==> arg0[result] == arg1
+//@   ensures forall j int :: 0 <= j && j < len(arg0) && (result == -1 || j < result) ==> arg0[j] != arg1
+//@ func ContainsAny
+//@   modifies nothing
+//@   ensures result == containsAny(arg0, arg1)
+//@ package github.com/anyproto/any-sync/commonspace/pubsub
+
+//@ func splitTopic
+//@   modifies nothing
+//@   ensures [count]          1 <= len(result) && len(result) <= 17
+//@   ensures [no_sep_inside]  len(result) <= 16 ==> (forall i int, j int :: 0 <= i && i < len(result) && 0 <= j && j < len(result[i]) ==> result[i][j] != 47)
+//@   ensures [short_is_whole] len(result) == 1 ==> result[0] == topic
+//@   posits  [deterministic]  len(result) == topicSegN(topic) && (forall i int :: 0 <= i && i < len(result) ==> result[i] == topicSeg(topic, i))
+//@   loop 0:
+//@     invariant 0 <= n && n <= 16
+//@     invariant forall i int, j int :: 0 <= i && i < n && 0 <= j && j < len(tsa[i]) ==> tsa[i][j] != 47
+//@     invariant n == 0 ==> rest == topic
+//@     decreases 16 - n
+
+// the structural rules shared by topics and patterns
+//@ func validateSegments
+//@   modifies nothing
+//@   ensures [structure] result == nil <==> (0 < len(topic) && len(topic) <= 256 && len(segs) <= 16 && (forall i int :: 0 <= i && i < len(segs) ==> segs[i] != ""))
+//@   loop 0:
+//@     invariant -1 <= rangeindex && rangeindex < len(segs)
+//@     invariant forall i int :: 0 <= i && i <= rangeindex ==> segs[i] != ""
+
+//@ def wfTopic(t) = 0 < len(t) && len(t) <= 256 && topicSegN(t) <= 16 && (forall i int :: 0 <= i && i < topicSegN(t) ==> topicSeg(t, i) != "" && !containsAny(topicSeg(t, i), "*>"))
+//@ def wfPattern(t) = 0 < len(t) && len(t) <= 256 && topicSegN(t) <= 16 && (forall i int :: 0 <= i && i < topicSegN(t) ==> topicSeg(t, i) != "" && (topicSeg(t, i) == "*" || (topicSeg(t, i) == ">" && i == topicSegN(t) - 1) || (topicSeg(t, i) != ">" && !containsAny(topicSeg(t, i), "*>"))))
+
+//@ uf wfPat(Str) Bool
+//@ axiom [wfPat.def] forall t Str :: wfPat(t) <==> wfPattern(t)
+
+// a publish topic is accepted exactly when it is canonical and wildcard free
+//@ func ValidateTopic
+//@   modifies nothing
+//@   ensures [accepts_only_wellformed] result == nil ==> wfTopic(topic)
+//@   ensures [accepts_all_wellformed]  wfTopic(topic) ==> result == nil
+//@   loop 0:
+//@     invariant -1 <= rangeindex && rangeindex < len(segs)
+//@     invariant forall i int :: 0 <= i && i <= rangeindex ==> !containsAny(segs[i], "*>")
+
+// a pattern is accepted exactly when canonical, '*' and '>' only as whole segments, '>' only last
+//@ func ValidatePattern
+//@   modifies nothing
+//@   ensures [accepts_only_wellformed] result == nil ==> wfPattern(pattern)
+//@   ensures [accepts_all_wellformed]  wfPattern(pattern) ==> result == nil
+//@   ensures [named] result == nil ==> wfPat(pattern)
+//@   loop 0:
+//@     invariant -1 <= rangeindex && rangeindex < len(segs)
+//@     invariant forall i int :: 0 <= i && i <= rangeindex ==> (segs[i] == "*" || (segs[i] == ">" && i == len(segs) - 1) || (segs[i] != ">" && !containsAny(segs[i], "*>")))
+
+//@ func validateSpaceId
+//@   modifies nothing
+//@   ensures [no_separator] result == nil <==> (spaceId != "" && (forall j int :: 0 <= j && j < len(spaceId) ==> spaceId[j] != 47))
+
+// the owner of a topic in the self-owned namespace is its last segment
+//@ func TopicOwner
+//@   pure
+//@   ensures [owner_is_last_segment] result == ite(topicSegN(topic) >= 2 && topicSeg(topic, 0) == "acc", topicSeg(topic, topicSegN(topic) - 1), "")
+
+// ---------------------------------------------------------------------------------------------
+// C17: the gates in front of the sinks.  Every check a message must pass records its outcome and
+// its arguments in ghost state (pure bookkeeping: `sets` only names what the call returned); every
+// sink records that it was reached.  The postconditions of receivePublish / relayPublish / fanout
+// then say: a sink was reached only after each required check returned "pass" for this message.
+//@ ghost idOfMsg Ptr stable
+//@ ghost idOfKey Iface stable
+//@ ghost memChecked Bool stable
+//@ ghost memSpace Str stable
+//@ ghost memIdentity Iface stable
+//@ ghost staleResult Bool stable
+//@ ghost staleArg Int stable
+//@ ghost sigVerified Bool stable
+//@ ghost sigKey Iface stable
+//@ ghost sigMsg Ptr stable
+//@ ghost dupResult Bool stable
+//@ ghost dupArg Slice stable
+//@ ghost matchTrie Ptr stable
+//@ ghost matchTopic Str stable
+//@ ghost matchRes Slice stable
+//@ ghost delivered Bool stable
+//@ ghost dlvIdentity Iface stable
+//@ ghost dlvSpace Str stable
+//@ ghost dlvTopic Str stable
+//@ ghost dlvPatterns Slice stable
+//@ ghost rateResult Bool stable
+//@ ghost ratePeer Str stable
+//@ ghost fanned Bool stable
+//@ ghost fanMsg Ptr stable
+//@ ghost forwarded Bool stable
+//@ ghost bcastCnt Int stable
+//@ ghost bcastTagsLen Int stable
+
+//@ package github.com/anyproto/any-sync/net/peer
+//@ func CtxIdentity
+//@   pure
+//@ func CtxPubKey
+//@   pure
+//@   ensures result1 == nil ==> result0 != nil
+//@ package github.com/anyproto/any-sync/commonspace/pubsub
+
+//@ func iface pubsub.MembershipChecker.CheckMember
+//@   modifies nothing
+//@   sets memChecked = result == nil
+//@   sets memSpace = arg2
+//@   sets memIdentity = arg3
+//@ func iface pubsub.Relay.IsResponsible
+//@   pure
+//@ func iface pubsub.Relay.IsResponsibleNode
+//@   pure
+//@ func iface pubsub.Crypto.Decrypt
+//@   modifies nothing
+//@ func iface streampool.StreamPool.Send
+//@   modifies nothing
+//@   sets forwarded = true
+//@ func iface streampool.StreamPool.Broadcast
+//@   modifies nothing
+//@   sets bcastCnt = bcastCnt + 1
+//@   sets bcastTagsLen = len(arg3)
+
+// the claimed identity is the key decoded from the message's own Identity field
+//@ func identityOf
+//@   modifies nothing
+//@   requires p != nil
+//@   ensures [decodes_claimed_identity] result0 == crypto.UnmarshalEd25519PublicKeyProto(p.Identity) && result1 == crypto.UnmarshalEd25519PublicKeyProto#1(p.Identity)
+//@   ensures [key_present] result1 == nil ==> result0 != nil
+//@   sets idOfMsg = p
+//@   sets idOfKey = result0
+
+// the byte string a signature covers: deterministic in the message fields (assumed leaf here; its
+// encoding is checked for memory safety only)
+//@ func publishSignData
+//@   pure
+//@   requires p != nil
+//@   assumes len(p.SpaceId) + len(p.Topic) + len(p.MsgId) + len(p.KeyId) + len(p.Payload) <= 1099511627776
+//@   ensures [covers_every_field] len(result) == 41 + len(p.SpaceId) + len(p.Topic) + len(p.MsgId) + len(p.KeyId) + len(p.Payload)
+//@   loop 0:
+//@     invariant -1 <= rangeindex && rangeindex < 4
+//@     invariant len(buf) == 17 + ite(rangeindex >= 0, 4 + len(p.SpaceId), 0) + ite(rangeindex >= 1, 4 + len(p.Topic), 0) + ite(rangeindex >= 2, 4 + len(p.MsgId), 0) + ite(rangeindex >= 3, 4 + len(p.KeyId), 0)
+
+//@ func verifySignature
+//@   modifies nothing
+//@   requires pubKey != nil && p != nil
+//@   ensures [sig_checked_over_sign_data] result == nil ==> sigOK(pubKey, bytestr(publishSignData(p)), p.Signature)
+//@   sets sigVerified = result == nil
+//@   sets sigKey = pubKey
+//@   sets sigMsg = p
+
+//@ func verifyPublish
+//@   modifies nothing
+//@   requires p != nil
+//@   ensures [key_and_signature] result1 == nil ==> result0 == crypto.UnmarshalEd25519PublicKeyProto(p.Identity) && sigOK(result0, bytestr(publishSignData(p)), p.Signature)
+
+// |now - ts| > skew in two's-complement arithmetic, zero meaning "absent"
+//@ ghost lastNowMilli Int stable
+//@ package time
+//@ func (Time).UnixMilli
+//@   modifies nothing
+//@   sets lastNowMilli = result
+//@ func (Duration).Milliseconds
+//@   pure
+//@ package github.com/anyproto/any-sync/commonspace/pubsub
+//@ func (*service).isStale
+//@   wrapping
+//@   modifies nothing
+//@   requires s != nil
+//@   assumes 0 <= s.cfg.MaxTimestampSkew.Milliseconds() && s.cfg.MaxTimestampSkew.Milliseconds() <= 2305843009213693952
+//@   ensures [zero_is_absent] timestampMilli == 0 ==> !result
+//@   ensures [window] timestampMilli != 0 && 0 <= lastNowMilli && lastNowMilli <= 4611686018427387904 ==> (result <==> (lastNowMilli - timestampMilli > s.cfg.MaxTimestampSkew.Milliseconds() || lastNowMilli - timestampMilli < 0 - s.cfg.MaxTimestampSkew.Milliseconds()))
+//@   sets staleResult = result
+//@   sets staleArg = timestampMilli
+
+//@ func (*msgIdDedup).seen
+//@   trusted
+//@   modifies object d kinds !string !iface
+//@   sets dupResult = result
+//@   sets dupArg = id
+
+//@ func (*peerRateLimiter).allow
+//@   trusted
+//@   modifies kinds !string !iface !uint8 !slice !bool
+//@   sets rateResult = result
+//@   sets ratePeer = peerId
+
+//@ func (*patternTrie).Match
+//@   trusted
+//@   modifies nothing
+//@   sets matchTrie = t
+//@   sets matchTopic = topic
+//@   sets matchRes = result
+
+//@ func (*service).enqueueLocalMatched
+//@   trusted
+//@   modifies nothing
+//@   sets delivered = true
+//@   sets dlvIdentity = identity
+//@   sets dlvSpace = spaceId
+//@   sets dlvTopic = topic
+//@   sets dlvPatterns = patterns
+
+//@ func (*service).sendPubStatus
+//@   trusted
+//@   modifies nothing
+
+//@ func bytesEqual
+//@   modifies nothing
+//@   ensures [bytewise] result <==> (len(a) == len(b) && (forall i int :: 0 <= i && i < len(a) ==> a[i] == b[i]))
+//@   loop 0:
+//@     invariant -1 <= rangeindex && rangeindex < len(a)
+//@     invariant forall i int :: 0 <= i && i <= rangeindex ==> a[i] == b[i]
+
+// client receive path: a handler is queued only for a message that matched a local pattern, whose
+// claimed identity is a member, owns the topic if it is self-owned, is inside the time window,
+// carries a valid signature under that same identity, and was not seen before.
+//@ func (*service).receivePublish
+//@   requires s != nil && p != nil && s.dedup != nil
+//@   requires !delivered
+//@   ensures [delivered_matched]   delivered ==> len(matchRes) > 0 && dlvPatterns == matchRes && matchTopic == old(p.Topic) && matchTrie == old(s.localTrie[p.SpaceId]) && dlvSpace == old(p.SpaceId) && dlvTopic == old(p.Topic)
+//@   ensures [delivered_identity]  delivered ==> idOfMsg == p && dlvIdentity == idOfKey && dlvIdentity != nil
+//@   ensures [delivered_member]    delivered && old(s.deps.Membership) != nil ==> memChecked && memSpace == old(p.SpaceId) && memIdentity == dlvIdentity
+//@   ensures [delivered_owner]     delivered ==> (forall k crypto.PubKey :: k == dlvIdentity ==> TopicOwner(old(p.Topic)) == "" || k.Account() == TopicOwner(old(p.Topic)))
+//@   ensures [delivered_fresh]     delivered ==> !staleResult && staleArg == old(p.TimestampMilli)
+//@   ensures [delivered_authentic] delivered ==> sigVerified && sigKey == dlvIdentity && sigMsg == p
+//@   ensures [delivered_once]      delivered ==> !dupResult && dupArg == old(p.MsgId)
+
+// serving side: fan out at most one broadcast per message, only to tags of matching patterns
+//@ func (*service).fanout
+//@   requires s != nil && p != nil && s.pool != nil
+//@   ensures [one_broadcast] bcastCnt <= old(bcastCnt) + 1
+//@   ensures [only_matching] bcastCnt > old(bcastCnt) ==> matchTopic == old(p.Topic) && old(s.remote[p.SpaceId]) != nil && matchTrie == old(s.remote[p.SpaceId].trie) && bcastTagsLen == len(matchRes) && bcastTagsLen > 0
+//@   loop 0:
+//@     invariant -1 <= rangeindex && rangeindex < len(patterns) && len(tags) == len(patterns)
+//@     invariant bcastCnt == old(bcastCnt) && matchTopic == old(p.Topic) && old(s.remote[p.SpaceId]) != nil && matchTrie == old(s.remote[p.SpaceId].trie) && patterns == matchRes && len(patterns) > 0
+
+//@ func (*service).fanout
+//@   modifies nothing
+//@   sets fanned = true
+//@   sets fanMsg = p
+
+// serving side ingress: a publish is fanned out only on a responsible node; a relayed one only when
+// it came from a responsible peer node, and it is never forwarded again; a client one only when the
+// handshake-proven identity equals the message identity byte for byte (and is not empty), that
+// identity is a member, owns the topic when self-owned, and the peer is inside its rate limit.
+//@ func (*service).relayPublish
+//@   requires s != nil && p != nil && s.pool != nil && s.rate != nil
+//@   assumes  s.deps.Relay != nil
+//@   requires !fanned && !forwarded
+//@   ensures [only_responsible]    fanned ==> old(s.deps.Relay).IsResponsible(old(p.SpaceId))
+//@   ensures [fans_this_message]   fanned ==> fanMsg == p
+//@   ensures [relayed_from_node]   fanned && old(p.Relayed) ==> old(s.deps.Relay).IsResponsibleNode(old(p.SpaceId), peerId)
+//@   ensures [relayed_not_forwarded] forwarded ==> !old(p.Relayed) && fanned
+//@   ensures [identity_bound]      fanned && !old(p.Relayed) ==> peer.CtxIdentity#1(ctx) == nil && len(peer.CtxIdentity(ctx)) > 0 && len(peer.CtxIdentity(ctx)) == len(old(p.Identity)) && (forall i int :: 0 <= i && i < len(old(p.Identity)) ==> peer.CtxIdentity(ctx)[i] == old(p.Identity)[i])
+//@   ensures [member_only]         fanned && !old(p.Relayed) && old(s.deps.Membership) != nil ==> peer.CtxPubKey#1(ctx) == nil && memChecked && memSpace == old(p.SpaceId) && memIdentity == peer.CtxPubKey(ctx)
+//@   ensures [owner_only]          fanned && !old(p.Relayed) && TopicOwner(old(p.Topic)) != "" ==> peer.CtxPubKey#1(ctx) == nil && peer.CtxPubKey(ctx).Account() == TopicOwner(old(p.Topic))
+//@   ensures [rate_limited]        fanned && !old(p.Relayed) ==> rateResult && ratePeer == peerId
+
+// ---------------------------------------------------------------------------------------------
+// C17: the interest trie.  Proved here: memory safety of every trie function for every trie shape
+// and every topic/pattern string (no nil dereference, no index out of range, including the 17-segment
+// over-long result of splitTopic), the slot accessors' exact meaning, and the size bookkeeping of
+// Add / remove relative to the 0<->1 refcount transitions.  NOT proved deductively: that Match returns
+// exactly the live patterns that match (needs an inductive abstraction of the heap tree) - a bounded
+// exhaustive comparison stands in for that, labelled bounded in the evidence.
+//@ func (*trieLevel).child
+//@   modifies nothing
+//@   requires l != nil
+//@   ensures [slot] result == ite(seg == "*", l.pwc, ite(seg == ">", l.fwc, ite(seg in l.nodes, l.nodes[seg], nil)))
+//@ func (*trieLevel).literal
+//@   modifies nothing
+//@   requires l != nil
+//@   ensures [slot] result == ite(seg in l.nodes, l.nodes[seg], nil)
+//@ func (*trieLevel).empty
+//@   modifies nothing
+//@   requires l != nil
+//@ func (*trieLevel).setChild
+//@   requires l != nil
+//@   modifies fields trieLevel.pwc trieLevel.fwc trieLevel.nodes
+//@   modifies kinds map:map[string]*pubsub.trieNode
+//@   ensures [wild_one]  seg == "*" ==> l.pwc == n && l.fwc == old(l.fwc)
+//@   ensures [wild_tail] seg == ">" ==> l.fwc == n && l.pwc == old(l.pwc)
+//@   ensures [literal]   seg != "*" && seg != ">" ==> (seg in l.nodes) && l.nodes[seg] == n && l.pwc == old(l.pwc) && l.fwc == old(l.fwc)
+//@ func (*trieLevel).deleteChild
+//@   requires l != nil
+//@   modifies fields trieLevel.pwc trieLevel.fwc
+//@   modifies kinds map:map[string]*pubsub.trieNode
+//@   ensures [wild_one]  seg == "*" ==> l.pwc == nil
+//@   ensures [wild_tail] seg == ">" ==> l.fwc == nil
+//@   ensures [literal]   seg != "*" && seg != ">" ==> !(seg in l.nodes)
+
+//@ func matchNode
+//@   requires node != nil
+//@ func matchLevel
+//@ func (*patternTrie).Match
+//@   assumes t != nil
+//@ func (*patternTrie).Len
+//@   modifies nothing
+//@   requires t != nil
+//@   ensures result == t.size
+
+// a new pattern (0 -> 1 references) grows the size by one; another reference leaves it alone
+//@ func (*patternTrie).Add
+//@   assumes t != nil && t.root != nil
+//@   ensures [size_counts_new_patterns] t.size == old(t.size) + ite(result, 1, 0)
+//@   loop 0:
+//@     invariant -1 <= rangeindex && rangeindex < len(segs) && level != nil && (rangeindex >= 0 ==> node != nil)
+//@     invariant t.size == old(t.size) && t.root == old(t.root)
+
+// representation invariant of the trie and of a space-interest record (every record carries a trie
+// with a root; established by the only constructors, newPatternTrie and handleSubscribe): assumed
+//@ func (*patternTrie).Remove
+//@   assumes t != nil && t.root != nil
+//@ func (*patternTrie).remove
+//@   requires t != nil && level != nil
+//@   modifies fields trieLevel.pwc trieLevel.fwc trieLevel.nodes trieNode.next trieNode.pattern trieNode.refs patternTrie.size
+//@   modifies kinds map:map[string]*pubsub.trieNode
+//@   ensures [size_counts_removed_patterns] t.size == old(t.size) - ite(result, 1, 0)
+
+// ---------------------------------------------------------------------------------------------
+// C17: entry gate of the publish path and teardown bookkeeping (one operation at a time).
+//@ func (*service).relayPublish
+//@   sets reachedRelay = true
+//@ func (*service).receivePublish
+//@   sets reachedReceive = true
+//@ ghost reachedRelay Bool stable
+//@ ghost reachedReceive Bool stable
+
+// a publish is processed further only with a 16-byte message id, a payload within the limit and a
+// well-formed wildcard-free topic
+//@ func (*service).handlePublish
+//@   requires s != nil && p != nil && s.pool != nil && s.rate != nil && s.dedup != nil
+//@   requires !reachedRelay && !reachedReceive && !fanned && !forwarded && !delivered
+//@   ensures [publish_gate] reachedRelay || reachedReceive ==> len(old(p.MsgId)) == 16 && len(old(p.Payload)) <= old(s.cfg.MaxPayloadSize) && wfTopic(old(p.Topic))
+//@   ensures [role_split]   (reachedRelay ==> old(s.deps.Relay) != nil) && (reachedReceive ==> old(s.deps.Relay) == nil)
+
+//@ func (*service).pruneStream
+//@   requires s != nil && strm != nil
+//@   modifies kinds map:map[uint32]*pubsub.streamInterest
+//@   ensures [empty_stream_record_dropped] strm.total == 0 ==> !(streamId in s.streams)
+//@   ensures [others_kept] forall k int :: k != streamId ==> ((k in s.streams) <==> old(k in s.streams))
+//@ func (*service).pruneSpace
+//@   requires s != nil && si != nil
+//@   assumes si.trie != nil
+//@   modifies kinds map:map[string]*pubsub.spaceInterest
+//@   ensures [empty_space_trie_dropped] si.trie.size == 0 ==> !(spaceId in s.remote)
+//@   ensures [others_kept] forall k string :: k != spaceId ==> ((k in s.remote) <==> old(k in s.remote))
+
+//@ func (*patternTrie).Remove
+//@   modifies fields trieLevel.pwc trieLevel.fwc trieLevel.nodes trieNode.next trieNode.pattern trieNode.refs patternTrie.size
+//@   modifies kinds map:map[string]*pubsub.trieNode
+//@ func (*service).triggerResync
+//@   trusted
+//@   modifies nothing
+
+// withdrawing a pattern reports whether the stream had it, and afterwards the stream does not
+//@ func (*service).removeStreamPattern
+//@   requires s != nil && strm != nil && si != nil
+//@   ensures [reports_presence] result <==> old((spaceId in strm.bySpace) && (pattern in strm.bySpace[spaceId]))
+//@   ensures [withdrawn] !((spaceId in old(strm.bySpace)) && (pattern in old(strm.bySpace)[spaceId]))
+
+// a closed stream leaves no stream record behind
+//@ func (*service).onStreamClose
+//@   requires s != nil
+//@   ensures [stream_record_gone] !(streamId in s.streams) || s.streams[streamId] == nil
+
+// ---------------------------------------------------------------------------------------------
+// C17: interest is recorded only for a validated request: stream id and handshake key present,
+// well-formed space id, responsible node, every pattern well formed, member of the space.
+//@ ghost addCnt Int stable
+//@ func (*patternTrie).Add
+//@   modifies fields trieLevel.pwc trieLevel.fwc trieLevel.nodes trieNode.next trieNode.pattern trieNode.refs patternTrie.size
+//@   modifies kinds map:map[string]*pubsub.trieNode
+//@   sets addCnt = addCnt + 1
+//@ func newPatternTrie
+//@   modifies nothing
+//@   ensures result != nil && result.root != nil && fresh(result)
+//@ package github.com/anyproto/any-sync/net/streampool
+//@ func CtxStreamId
+//@   pure
+//@ package github.com/anyproto/any-sync/commonspace/pubsub
+//@ func iface streampool.StreamPool.AddTagsCtx
+//@   modifies nothing
+//@ func (*service).sendStatus
+//@   trusted
+//@   modifies nothing
+//@ func interestTag
+//@   modifies nothing
+
+//@ func (*service).handleSubscribe
+//@   requires s != nil && sub != nil && s.pool != nil
+//@   assumes s.remote != nil && s.streams != nil
+//@   assumes forall k string :: (k in s.remote) && s.remote[k] != nil ==> s.remote[k].trie != nil && s.remote[k].trie.root != nil
+//@   assumes forall k int :: (k in s.streams) && s.streams[k] != nil ==> s.streams[k].bySpace != nil
+//@   ensures [subscribe_gate_ids]      addCnt > old(addCnt) ==> streampool.CtxStreamId#1(ctx) && peer.CtxPubKey#1(ctx) == nil
+//@   ensures [subscribe_gate_space]    addCnt > old(addCnt) ==> old(sub.SpaceId) != "" && (forall j int :: 0 <= j && j < len(old(sub.SpaceId)) ==> old(sub.SpaceId)[j] != 47)
+//@   ensures [subscribe_gate_node]     addCnt > old(addCnt) && old(s.deps.Relay) != nil ==> old(s.deps.Relay).IsResponsible(old(sub.SpaceId))
+//@   ensures [subscribe_gate_patterns] addCnt > old(addCnt) ==> (forall i int :: 0 <= i && i < len(old(sub.Topics)) ==> wfPat(old(sub.Topics[i])))
+//@   ensures [subscribe_gate_member]   addCnt > old(addCnt) && old(s.deps.Membership) != nil ==> memChecked && memSpace == old(sub.SpaceId) && memIdentity == peer.CtxPubKey(ctx)
+//@   loop 0:
+//@     invariant -1 <= rangeindex && rangeindex < len(sub.Topics) && addCnt == old(addCnt)
+//@     invariant forall i int :: 0 <= i && i <= rangeindex ==> wfPat(sub.Topics[i])
+//@   loop 1:
+//@     invariant -1 <= rangeindex && rangeindex < len(sub.Topics) && sub.Topics == old(sub.Topics)
+//@     invariant si != nil && strm != nil && spacePatterns != nil
+//@   loop 2:
+//@     invariant -1 <= rangeindex && rangeindex < len(accepted) && len(tags) == len(accepted)
+//@   loop 3:
+//@     invariant -1 <= rangeindex && rangeindex < len(accepted) && si != nil && strm != nil
